@@ -13,7 +13,7 @@ ASSUMPTIONS = [
 ]
 BOUNDS = {
     "quick": "completeness: 64 tries, symbolic q len <= 3.  soundness: every 4th trie; every withheld subset of the first 4 proof nodes; swap / duplicate / foreign-replace at each of 4 positions combined with <=1 withheld node; true root and another trie's root; ~10 keys (stored keys, their prefixes and extensions, foreign keys)",
-    "thorough": "completeness: 379 tries, len <= 4.  soundness: every 2nd trie, withheld subsets / positions over the first 6 proof nodes",
+    "thorough": "completeness: every 2nd of 379 tries, len <= 4.  soundness: every 6th trie, withheld subsets / positions over the first 6 proof nodes",
 }
 OUTSIDE = "alterations other than the listed kinds (e.g. bit flips inside a key path); roots that are not 32 bytes; keys longer than 4 bytes"
 NONTRIVIAL_RULE = "completeness: proof of a non-empty absent key; soundness: the corrupted proof was rejected with BadTrieProof"
@@ -25,8 +25,9 @@ def jobs(tier):
     n = len(hexquery.family_for(qbase))
     out = []
     for mi in range(n):
-        out.append({"module": "vf.props.hexquery", "fn": "h_proof", "cfg": dict(qbase, mi=mi), "pct": 1200, "ppt": 30})
-        if mi % (4 if tier == "quick" else 2) == 1:
+        if tier == "quick" or mi % 2 == 0:
+            out.append({"module": "vf.props.hexquery", "fn": "h_proof", "cfg": dict(qbase, mi=mi), "pct": 1200, "ppt": 30})
+        if mi % (4 if tier == "quick" else 6) == 1:
             out.append({"module": "vf.props.hexquery", "fn": "h_forge", "cfg": dict(qbase, mi=mi, other=True), "pct": 2400, "ppt": 30})
     out.append({"module": "vf.props.hexquery", "fn": "r_proof", "cfg": dict(qbase, mi=n - 1), "pct": 300, "ppt": 30, "kind": "reach"})
     out.append({"module": "vf.props.hexquery", "fn": "r_forge", "cfg": dict(qbase, mi=n - 2, other=True), "pct": 600, "ppt": 30, "kind": "reach"})
